@@ -143,10 +143,6 @@ class Report:
             print("   %-10s %3d/%-3d %s" % (rid, r["held"], r["instances"], r["text"][:110]))
         for f, k in known_hit:
             print("KNOWN-FINDING: property=%s %s %s in %s (%s): %s" % (self.prop, f.rule, f.signature, f.function, f.where, k.get("what", f.message)))
-        if self.unknowns:
-            for u in self.unknowns:
-                print("ANALYSIS-BROKEN: %s" % u)
-            return 2
         if real:
             rdir = os.path.join(VERIF, "evidence", "replay") if not os.environ.get("VERIF_NO_EVIDENCE") else os.path.join(build_scratch(), "replay")
             os.makedirs(rdir, exist_ok=True)
@@ -155,7 +151,13 @@ class Report:
                 with open(rp, "w") as fh:
                     json.dump(f.to_json(), fh, indent=1)
                 print("   %s at %s in %s: %s" % (f.rule, f.where, f.function, f.message))
-                print("VIOLATION property=%s replay=%s" % (self.prop, rp))
+                if not self.unknowns:
+                    print("VIOLATION property=%s replay=%s" % (self.prop, rp))
+        if self.unknowns:
+            for u in self.unknowns:
+                print("ANALYSIS-BROKEN: %s" % u)
+            return 2
+        if real:
             return 1
         return 0
 
